@@ -245,3 +245,93 @@ Theorem C07_ssa_to_srt_styled : forall data p, ssa_dec data = Ok p -> srt_plain_
   exists dst, convert_plain ssa_dec srt_enc data = Ok dst /\ srt_dec dst = Ok (ptrunc 1000000 p).
 Proof. exact ssa_to_srt_styled. Qed.
 Print Assumptions C07_ssa_to_srt_styled.
+(* STYLED TTML sources converted to SSA/ASS (Model/ConvTtmlSsa.v; Proofs/ConvTtmlSsaProofs.v).  conv_ttml_ssa is what
+   WriteToSSA sees of the Subtitles value ReadFromTTML built: the title as the only script info, EVERY style of the TTML
+   styles map (referenced or not; parent links, TTML attributes and regions do not travel) as a style row holding the name
+   only, per cue the times, the ID of its style in the Style column, and per line the texts of its spans put together.
+   The library's destination bytes are compared with convert_ttml_ssa on every generated styled TTML document (suite
+   convttmlssa).
+   C07_ttml_to_ssa_styled: for every source the TTML reader model accepts (XML parser model, then the tree reader) whose
+   conversion is representable in SSA, and every order in which the runtime may range over the styles map (reorder: any
+   permutation of the keys): the conversion succeeds and the destination read back has the same cues in the same order,
+   times truncated to the centisecond, per line the same text (exact equality: the SSA writer inserts nothing between the
+   runs of a line).  The representability hypothesis is stated on conv_ttml_ssa_nf d, the same document with the runs of
+   every line put together (written to the same bytes; the shape the SSA reader returns); it is image_repr of C04
+   (Proofs/SsaRewrite.v: doc_repr without the styles map being listed in sorted order) and amounts to: at least one cue;
+   every style ID non-empty, free of commas and line terminators, unchanged by TrimSpace; the title on one line and
+   unchanged by TrimSpace; times in 0 .. max Duration; a cue's style reference is not the reserved spelling *Default;
+   every line text free of braces and of the two-byte sequences \n and \N and unchanged by TrimSpace; the cue text free
+   of line terminators.  ttml_ssa_okb decides it (C07_ttml_to_ssa_okb); each condition is needed (computed
+   counter-examples C07_ttml_to_ssa_needs; what the library does on them: notes/C07-ttml-ssa.md).
+   C07_ttml_to_ssa_styled_written: the same starting from a representable TTML DOCUMENT (repr_doc of C03) and the bytes
+   the TTML writer emits for it, any indent: times truncated to the millisecond, then to the centisecond.
+   C07_ttml_to_ssa_order: the destination bytes do not depend on the iteration order of the styles map. *)
+From Astisub Require Import Kit.Xml Kit.XmlParse2 Model.Ttml Model.Ssa Model.ConvTtmlSsa Proofs.SsaRewrite Proofs.TtmlDocSpec Proofs.ConvTtmlSsaProofs.
+From Coq Require Import Permutation.
+Theorem C07_ttml_to_ssa_styled : forall src root d reorder,
+  xml_parse2 src = Some root -> read_ttml root = Ok d ->
+  image_repr (conv_ttml_ssa_nf d) -> Permutation (reorder (tsa_keys d)) (tsa_keys d) ->
+  exists dst d', convert_ttml_ssa_by reorder src = Ok dst /\ read_ssa dst = Ok d' /\
+                 ssa_to_plain d' = ptrunc 10000000 (ttml_to_plain d).
+Proof. exact ttml_to_ssa_styled. Qed.
+Print Assumptions C07_ttml_to_ssa_styled.
+(* document level: any TTML document value, any enumeration of the keys of its styles map *)
+Theorem C07_ttml_to_ssa_styled_doc : forall d order,
+  image_repr (conv_ttml_ssa_nf d) -> Permutation order (tsa_keys d) ->
+  exists dst d', write_ssa (conv_ttml_ssa d) order = Ok dst /\ read_ssa dst = Ok d' /\
+                 ssa_to_plain d' = ptrunc 10000000 (ttml_to_plain d).
+Proof. exact ttml_to_ssa_doc. Qed.
+Print Assumptions C07_ttml_to_ssa_styled_doc.
+Theorem C07_ttml_to_ssa_styled_written : forall d ind reorder,
+  repr_doc d = true -> indent_ok ind = true ->
+  image_repr (conv_ttml_ssa_nf (written_value d)) -> Permutation (reorder (tsa_keys d)) (tsa_keys d) ->
+  exists src dst d', write_ttml_bytes ind d = Ok src /\ convert_ttml_ssa_by reorder src = Ok dst /\ read_ssa dst = Ok d' /\
+                     ssa_to_plain d' = ptrunc 10000000 (ptrunc 1000000 (ttml_to_plain d)).
+Proof. exact ttml_to_ssa_written. Qed.
+Print Assumptions C07_ttml_to_ssa_styled_written.
+(* through the two plain-view decoders: what C07_any_source compares, for the conversion the library really performs *)
+Theorem C07_ttml_to_ssa_styled_plain : forall src p d reorder,
+  read_ttml_bytes2 src = Ok d -> ttml_to_plain d = p ->
+  image_repr (conv_ttml_ssa_nf d) -> Permutation (reorder (tsa_keys d)) (tsa_keys d) ->
+  exists dst, ttml_dec2 src = Ok p /\ convert_ttml_ssa_by reorder src = Ok dst /\ ssa_dec dst = Ok (ptrunc ssa_unit p).
+Proof. exact ttml_to_ssa_styled_plain. Qed.
+Print Assumptions C07_ttml_to_ssa_styled_plain.
+Theorem C07_ttml_to_ssa_order : forall reorder src,
+  (forall l, Permutation (reorder l) l) -> convert_ttml_ssa_by reorder src = convert_ttml_ssa src.
+Proof. exact convert_ttml_ssa_order_independent. Qed.
+Print Assumptions C07_ttml_to_ssa_order.
+Theorem C07_ttml_to_ssa_same_bytes : forall d order, write_ssa (conv_ttml_ssa d) order = write_ssa (conv_ttml_ssa_nf d) order.
+Proof. exact tsa_write_nf. Qed.
+Print Assumptions C07_ttml_to_ssa_same_bytes.
+Theorem C07_ttml_to_ssa_okb : forall d, ttml_ssa_okb d = true -> image_repr (conv_ttml_ssa_nf d).
+Proof. exact ttml_ssa_okb_ok. Qed.
+Print Assumptions C07_ttml_to_ssa_okb.
+(* non-vacuity: a document with a title, three styles (one referenced by a cue, one by a span only, one a parent), a
+   region, two cues, a two-line cue whose first line has two spans, times off both grids: it is a representable TTML
+   document, its conversion satisfies the hypothesis (also in the sorted form doc_reprb of C04), the conversion is
+   computed (styles map ranged over in reverse order), and the written-bytes theorem applies to it *)
+Example C07_ttml_to_ssa_example :
+  repr_doc tsa_ex = true /\ ttml_ssa_okb (written_value tsa_ex) = true /\
+  Proofs.SsaRepr.doc_reprb (conv_ttml_ssa_nf (written_value tsa_ex)) = true /\
+  tsa_trip tsa_ex = Ok [(1000000000%Z, 2000000000%Z, [[72;101;108;108;111;44;32;119;111;114;108;100]; [115;101;99;111;110;100;32;108;105;110;101]]);
+                        (3000000000%Z, 4990000000%Z, [[112;108;97;105;110]])]%N.
+Proof. split; [exact tsa_ex_ttml_repr|]. split; [exact (proj1 (proj2 tsa_ex_ok))|]. split; [exact (proj2 (proj2 tsa_ex_ok)) | exact tsa_ex_trip]. Qed.
+Example C07_ttml_to_ssa_example_roundtrip :
+  exists src dst d', write_ttml_bytes ttml_default_indent tsa_ex = Ok src /\ convert_ttml_ssa_by (@rev str) src = Ok dst /\
+                     read_ssa dst = Ok d' /\ ssa_to_plain d' = ptrunc ssa_unit (ptrunc 1000000 (ttml_to_plain tsa_ex)).
+Proof. exact tsa_ex_roundtrip. Qed.
+(* each representability condition is needed (one cue, lines given as lists of span texts): a brace pair (a{b}c reads
+   back as ac), \N inside a line (two lines), blanks at the ends of a line (trimmed), a carriage return (rest of the
+   text lost), a comma in a style ID (the destination cannot be read), line terminators in the title (a cue injected) *)
+Example C07_ttml_to_ssa_needs :
+  tsa_cx_lines (tsa_trip (tsa_cx [] [] None [[[97;123;98;125;99]]])) = Some [[97;99]] /\
+  tsa_cx_lines (tsa_trip (tsa_cx [] [] None [[[97;92;78;98]]])) = Some [[97]; [98]] /\
+  tsa_cx_lines (tsa_trip (tsa_cx [] [] None [[[32;97;32]]; [[98;32]]])) = Some [[97]; [98]] /\
+  tsa_cx_lines (tsa_trip (tsa_cx [] [] None [[[97;13;98]]])) = Some [[97]] /\
+  tsa_trip (tsa_cx [] [[97;44;98]] (Some [97;44;98]) [[[120]]]) = Err EParse /\
+  tsa_trip (tsa_cx tsa_cx_title [] None [[[120]]]) = Ok [(0%Z, 0%Z, [[98]]); (1000000000%Z, 2000000000%Z, [[120]])].
+Proof.
+  split; [exact (proj1 tsa_needs_no_brace)|]. split; [exact (proj1 tsa_needs_no_break_N)|].
+  split; [exact (proj1 tsa_needs_trimmed_lines)|]. split; [exact (proj1 tsa_needs_no_line_terminator)|].
+  split; [exact (proj1 tsa_needs_no_comma_in_id) | exact (proj1 tsa_needs_title_one_line)].
+Qed.
